@@ -32,6 +32,7 @@ type config struct {
 	viaExtractRates bool // the rates are supplied per request through the ExtractRates option
 	capacity        int  // >0: Capacity option; the model then also drives a second source
 	extraAmounts    []int64
+	magnitudes      bool // configurations of unusual magnitude: explored for C03 (both tiers) and, because the continuation probes multiply their cost, for C13 in the thorough tier only
 }
 
 func (c config) maxPeriod() time.Duration {
@@ -181,7 +182,8 @@ func (s *sys) settle(source string) []*big.Rat {
 	if last, ok := s.lastT[source]; ok {
 		dt := now.Sub(last)
 		for i, r := range s.cfg.rates {
-			leak := new(big.Rat).SetFrac(big.NewInt(int64(dt)*r.average), big.NewInt(int64(r.period)))
+			// (elapsed ns x average overflows 64 bits for an hourly quota of millions: multiply in big integers)
+			leak := new(big.Rat).SetFrac(new(big.Int).Mul(big.NewInt(int64(dt)), big.NewInt(r.average)), big.NewInt(int64(r.period)))
 			d[i].Sub(d[i], leak)
 			if d[i].Sign() < 0 {
 				d[i].SetInt64(0)
@@ -478,9 +480,9 @@ func configs(tier string) []config {
 	out = append(out, config{name: "1s:1/5@0s+ExtractRates", rates: sets[3].rates, viaExtractRates: true})
 	out = append(out, config{name: "1s:1/1@0s+Capacity(2)", rates: sets[0].rates, capacity: 2})
 	// a fine-grained rate: one token every 250 microseconds (delays far below a millisecond)
-	out = append(out, config{name: "1s:4000/2@0s", rates: []rateSpec{{S, 4000, 2}}})
+	out = append(out, config{name: "1s:4000/2@0s", rates: []rateSpec{{S, 4000, 2}}, magnitudes: true})
 	// large magnitudes: an hourly quota of 36 million units (one token every 100 microseconds), requests of millions
-	out = append(out, config{name: "1h:36000000/36000000@0s", rates: []rateSpec{{3600 * S, 36_000_000, 36_000_000}}, extraAmounts: []int64{3_000_000, 9_000_000}})
+	out = append(out, config{name: "1h:36000000/36000000@0s", rates: []rateSpec{{3600 * S, 36_000_000, 36_000_000}}, extraAmounts: []int64{3_000_000, 9_000_000}, magnitudes: true})
 	out = append(out, config{name: "2s:1/2@300ms+Capacity(2)", rates: sets[4].rates, phase: 300 * time.Millisecond, capacity: 2})
 	return out
 }
@@ -509,6 +511,9 @@ func Run(tier string, sh lib.Shard, rep *lib.Report) {
 	var results []string
 	gang := os.Getenv("VERIF_GANG_DIR")
 	for _, cfg := range configs(tier) {
+		if cfg.magnitudes && rep.Property != "C03" && tier != "thorough" {
+			continue
+		}
 		// every configuration is explored by all workers together (distributed BFS by state hash)
 		m := model(cfg, tier, true, 0)
 		m.MaxStates = cap
